@@ -4,8 +4,10 @@
 package main
 
 import (
+	"encoding/json"
 	"flag"
 	"fmt"
+	"os"
 	"reflect"
 
 	"free5gclib/aper"
@@ -33,14 +35,53 @@ var transferTypes = []interface{}{
 }
 
 type rec struct {
-	w  *ev.Writer
-	id int
+	w    *ev.Writer
+	id   int
+	spec map[int][]byte // second pass (C04): canonical bytes of the reference encoder for some case ids; nil in the first pass
+}
+
+// second pass: the generation is replayed deterministically; for the case ids listed in spec the bytes produced by the reference
+// encoder (Per.tla) are fed to the real decoder, the result is exported and re-encoded.  Returns true if this is the second pass.
+func (r *rec) second(name, cls string, tree ev.M, decode func(b []byte) (reflect.Value, error), encode func(v reflect.Value) ([]byte, error), export func(v reflect.Value) ev.M) bool {
+	if r.spec == nil {
+		return false
+	}
+	id := r.id
+	r.id++
+	b, ok := r.spec[id]
+	if !ok {
+		return true
+	}
+	var out reflect.Value
+	var derr error
+	pd := ev.Catch(func() { out, derr = decode(b) })
+	obs := ev.M{"err": derr != nil || pd != "", "panic": pd != ""}
+	if derr == nil && pd == "" {
+		obs["tree"] = export(out)
+		var b2 []byte
+		var e2 error
+		p2 := ev.Catch(func() { b2, e2 = encode(out) })
+		obs["reErr"] = e2 != nil || p2 != ""
+		obs["reBytes"] = ev.Ints(b2)
+	}
+	r.w.Emit(ev.M{"ev": "Dec", "id": id, "name": name, "cls": cls, "tree": tree, "bytes": ev.Ints(b), "obs": obs})
+	return true
 }
 
 // roundtrip: encode with the real encoder, decode the result with the real decoder, re-encode.
 func (r *rec) roundtrip(name, cls string, val reflect.Value, tag string, violated bool) {
 	p := te.Parse(tag)
 	tree := te.Export(val, p)
+	if r.second(name, cls, tree,
+		func(b []byte) (reflect.Value, error) {
+			out := reflect.New(val.Type())
+			err := aper.UnmarshalWithParams(b, out.Interface(), tag)
+			return out.Elem(), err
+		},
+		func(v reflect.Value) ([]byte, error) { return aper.MarshalWithParams(v.Interface(), tag) },
+		func(v reflect.Value) ev.M { return te.Export(v, p) }) {
+		return
+	}
 	var b []byte
 	var err error
 	pn := ev.Catch(func() { b, err = aper.MarshalWithParams(val.Interface(), tag) })
@@ -93,6 +134,18 @@ func pduCases(r *rec, g *te.Gen, perType int, badEvery int) {
 				// through the NGAP entry points
 				name := vt.Field(alt).Name
 				tree := te.Export(pv, te.Parse(pduTag))
+				if r.second(name, fmt.Sprint("pdu", top.present), tree,
+					func(b []byte) (reflect.Value, error) {
+						out, err := ngap.Decoder(b)
+						if out == nil {
+							return reflect.Value{}, fmt.Errorf("nil PDU")
+						}
+						return reflect.ValueOf(out).Elem(), err
+					},
+					func(v reflect.Value) ([]byte, error) { return ngap.Encoder(v.Interface().(ngapType.NGAPPDU)) },
+					func(v reflect.Value) ev.M { return te.Export(v, te.Parse(pduTag)) }) {
+					continue
+				}
 				var b []byte
 				var err error
 				pn := ev.Catch(func() { b, err = ngap.Encoder(pdu) })
@@ -367,10 +420,33 @@ func main() {
 	tier := flag.String("tier", "quick", "")
 	out := flag.String("out", "per.ndjson", "")
 	mode := flag.String("mode", "all", "pdu | prim | all")
+	specBytes := flag.String("specbytes", "", "second pass: JSON object case id -> canonical bytes of the reference encoder")
 	flag.Parse()
 	w := ev.Create(*out)
 	defer w.Close()
 	r := &rec{w: w}
+	if *specBytes != "" {
+		raw, err := os.ReadFile(*specBytes)
+		if err != nil {
+			fmt.Println("HARNESS-ERROR", err)
+			os.Exit(2)
+		}
+		var m map[string][]int
+		if err := json.Unmarshal(raw, &m); err != nil {
+			fmt.Println("HARNESS-ERROR", err)
+			os.Exit(2)
+		}
+		r.spec = map[int][]byte{}
+		for k, v := range m {
+			var id int
+			fmt.Sscan(k, &id)
+			b := make([]byte, len(v))
+			for i, x := range v {
+				b[i] = byte(x)
+			}
+			r.spec[id] = b
+		}
+	}
 	g := &te.Gen{R: ev.Rng(*seed, "per"), MaxList: 2, MaxStr: 40}
 	per := 3
 	if *tier == "thorough" {
